@@ -94,7 +94,9 @@ fn merge_from_client<T>(client: &T, server: &T) -> Result<T>
 	where
 		T: Debug + Clone + PartialEq,
 {
-	pretty_assertions::assert_eq!(client, server);
+	if client != server {
+		bail!("cannot merge: client {client:?} and server {server:?} differ");
+	}
 	Ok(client.clone())
 }
 
@@ -196,10 +198,7 @@ fn class_merger_merge(client: ClassFile, server: ClassFile) -> Result<ClassFile>
 				&server.inner_classes.unwrap_or_default(),
 				|inner_class| inner_class.inner_class.clone(),
 				|inner_class, _| Ok(inner_class.clone()),
-				|client, server| {
-					pretty_assertions::assert_eq!(client, server);
-					panic!();
-				}
+				|client, server| bail!("cannot merge InnerClasses entries: client {client:?} and server {server:?} differ"),
 			)?;
 			if inner_classes.is_empty() {
 				None
